@@ -1,0 +1,217 @@
+//go:build verif
+// +build verif
+
+// Contracts for the amf0 package (build tag verif; never compiled into the library).
+// Specification source: Adobe "Action Message Format -- AMF 0" (amf0_spec_121207), sections 1.3.1 (UTF-8),
+// 2.1 (markers), 2.2 Number, 2.3 Boolean, 2.4 String, 2.7 null, 2.8 undefined, 2.11 Object End, and the
+// statements of C05/C06.
+
+package amf0
+
+import "math"
+
+func prim_sameslice(a, b []byte) bool {
+	return len(a) == len(b) && (len(a) == 0 || &a[0] == &b[0])
+}
+
+func prim_eqbytes(a, b []byte) bool {
+	if len(a) != len(b) {
+		return false
+	}
+	for i := range a {
+		if a[i] != b[i] {
+			return false
+		}
+	}
+	return true
+}
+
+func prim_fresh(a []byte) bool { return true } // "allocated during the call"; not observable at run time
+
+// ---------- the Amf0 interface contract (every implementation is verified against it) ----------
+
+//@ iface Amf0.Size ensures C05
+func iface_Size(ret0 int) bool { return ret0 >= 1 && ret0 <= 1<<41 }
+
+// ---------- 1.3.1 UTF-8: U16 length, then the bytes ----------
+
+//@ ensures (*amf0UTF8).Size C05.utf8.size
+func ens_utf8Size(v *amf0UTF8, ret0 int) bool { return ret0 == 2+len(*v) }
+
+//@ requires (*amf0UTF8).MarshalBinary
+func req_utf8Marshal(v *amf0UTF8) bool { return len(*v) <= 65535 }
+
+//@ ensures (*amf0UTF8).MarshalBinary C05.utf8.marshal C06.utf8.layout
+func ens_utf8Marshal(v *amf0UTF8, data []byte, err error) bool {
+	return err == nil && len(data) == 2+len(*v) && int(data[0])<<8|int(data[1]) == len(*v) && string(data[2:]) == string(*v) && prim_fresh(data)
+}
+
+//@ ensures (*amf0UTF8).UnmarshalBinary C05.utf8.unmarshal C06.utf8.decode
+func ens_utf8Unmarshal(v *amf0UTF8, data []byte, err error) bool {
+	if len(data) < 2 || len(data) < 2+(int(data[0])<<8|int(data[1])) {
+		return err != nil
+	}
+	n := int(data[0])<<8 | int(data[1])
+	return err == nil && len(*v) == n && string(*v) == string(data[2:2+n])
+}
+
+//@ assigns (*amf0UTF8).UnmarshalBinary v.*
+
+// ---------- 2.2 Number: marker 0x00, DOUBLE (8 bytes IEEE-754, network byte order) ----------
+
+func spec_be64(p []byte) uint64 {
+	return uint64(p[0])<<56 | uint64(p[1])<<48 | uint64(p[2])<<40 | uint64(p[3])<<32 | uint64(p[4])<<24 | uint64(p[5])<<16 | uint64(p[6])<<8 | uint64(p[7])
+}
+
+//@ ensures (*Number).Size C05.number.size
+func ens_numberSize(ret0 int) bool { return ret0 == 9 }
+
+//@ ensures (*Number).MarshalBinary C05.number.marshal C06.number.layout
+func ens_numberMarshal(v *Number, data []byte, err error) bool {
+	return err == nil && len(data) == 9 && data[0] == 0 && spec_be64(data[1:]) == math.Float64bits(float64(*v)) && prim_fresh(data)
+}
+
+//@ ensures (*Number).UnmarshalBinary C05.number.unmarshal C06.number.decode
+func ens_numberUnmarshal(v *Number, data []byte, err error) bool {
+	if len(data) < 9 || data[0] != 0 {
+		return err != nil
+	}
+	return err == nil && math.Float64bits(float64(*v)) == spec_be64(data[1:])
+}
+
+//@ assigns (*Number).UnmarshalBinary v.*
+
+// bit-exact round trip: NaN payloads, infinities, -0 included
+//@ lemma C05.number.roundtrip
+func lemma_C05_numberRoundtrip(bits uint64) bool {
+	n := Number(math.Float64frombits(bits))
+	b, err := n.MarshalBinary()
+	if err != nil || len(b) != n.Size() {
+		return false
+	}
+	var m Number
+	if err = m.UnmarshalBinary(b); err != nil {
+		return false
+	}
+	return math.Float64bits(float64(m)) == bits && m.Size() == 9
+}
+
+// ---------- 2.3 Boolean: marker 0x01, U8 (0 is false, anything else true) ----------
+
+//@ ensures (*Boolean).Size C05.boolean.size
+func ens_boolSize(ret0 int) bool { return ret0 == 2 }
+
+//@ ensures (*Boolean).MarshalBinary C05.boolean.marshal C06.boolean.layout
+func ens_boolMarshal(v *Boolean, data []byte, err error) bool {
+	return err == nil && len(data) == 2 && data[0] == 1 && (data[1] == 1) == bool(*v) && (data[1] == 0) == !bool(*v) && prim_fresh(data)
+}
+
+//@ ensures (*Boolean).UnmarshalBinary C05.boolean.unmarshal C06.boolean.decode
+func ens_boolUnmarshal(v *Boolean, data []byte, err error) bool {
+	if len(data) < 2 || data[0] != 1 {
+		return err != nil
+	}
+	return err == nil && bool(*v) == (data[1] != 0)
+}
+
+//@ assigns (*Boolean).UnmarshalBinary v.*
+
+// ---------- 2.4 String: marker 0x02, UTF-8 ----------
+
+//@ ensures (*String).Size C05.string.size
+func ens_stringSize(v *String, ret0 int) bool { return ret0 == 3+len(*v) }
+
+//@ requires (*String).MarshalBinary
+func req_stringMarshal(v *String) bool { return len(*v) <= 65535 }
+
+//@ ensures (*String).MarshalBinary C05.string.marshal C06.string.layout
+func ens_stringMarshal(v *String, data []byte, err error) bool {
+	return err == nil && len(data) == 3+len(*v) && data[0] == 2 && int(data[1])<<8|int(data[2]) == len(*v) && string(data[3:]) == string(*v) && prim_fresh(data)
+}
+
+//@ ensures (*String).UnmarshalBinary C05.string.unmarshal C06.string.decode
+func ens_stringUnmarshal(v *String, data []byte, err error) bool {
+	if len(data) < 3 || data[0] != 2 || len(data) < 3+(int(data[1])<<8|int(data[2])) {
+		return err != nil
+	}
+	n := int(data[1])<<8 | int(data[2])
+	return err == nil && len(*v) == n && string(*v) == string(data[3:3+n])
+}
+
+//@ assigns (*String).UnmarshalBinary v.*
+
+// strings up to 65535 bytes: unmarshal(marshal(s)) == s, Size() == bytes produced == bytes consumed
+//@ requires lemma_C05_stringRoundtrip
+func req_lemma_string(s String) bool { return len(s) <= 65535 }
+
+//@ lemma C05.string.roundtrip
+func lemma_C05_stringRoundtrip(s String, rest []byte) bool {
+	b, err := s.MarshalBinary()
+	if err != nil || len(b) != s.Size() {
+		return false
+	}
+	var t String
+	if err = t.UnmarshalBinary(append(b, rest...)); err != nil {
+		return false
+	}
+	return t == s && t.Size() == len(b)
+}
+
+// ---------- 2.7 null, 2.8 undefined: a single marker byte ----------
+
+//@ ensures (*singleMarkerObject).Size C05.marker.size
+func ens_smSize(ret0 int) bool { return ret0 == 1 }
+
+//@ ensures (*singleMarkerObject).MarshalBinary C05.marker.marshal C06.marker.layout
+func ens_smMarshal(v *singleMarkerObject, data []byte, err error) bool {
+	return err == nil && len(data) == 1 && data[0] == uint8(v.target) && prim_fresh(data)
+}
+
+//@ ensures (*singleMarkerObject).UnmarshalBinary C05.marker.unmarshal C06.marker.decode
+func ens_smUnmarshal(v *singleMarkerObject, data []byte, err error) bool {
+	return (err == nil) == (len(data) >= 1 && data[0] == uint8(v.target))
+}
+
+//@ ensures NewNull C06.null.marker
+func ens_newNull(ret0 *null) bool { return ret0 != nil && ret0.target == 5 }
+
+// ---------- 2.11 Object End: 00 00 09 ----------
+
+//@ ensures (*objectEOF).Size C05.eof.size
+func ens_eofSize(ret0 int) bool { return ret0 == 3 }
+
+//@ ensures (*objectEOF).MarshalBinary C05.eof.marshal C06.eof.layout
+func ens_eofMarshal(data []byte, err error) bool {
+	return err == nil && len(data) == 3 && data[0] == 0 && data[1] == 0 && data[2] == 9 && prim_fresh(data)
+}
+
+//@ ensures (*objectEOF).UnmarshalBinary C05.eof.unmarshal C06.eof.decode
+func ens_eofUnmarshal(data []byte, err error) bool {
+	return (err == nil) == (len(data) >= 3 && data[0] == 0 && data[1] == 0 && data[2] == 9)
+}
+
+// ---------- 2.1 markers: Discovery over all 256 marker bytes ----------
+
+func spec_supportedMarker(m byte) bool {
+	return m == 0 || m == 1 || m == 2 || m == 3 || m == 5 || m == 6 || m == 8 || m == 9 || m == 10
+}
+
+// unsupported markers are errors; supported ones yield a value whose own marker is the byte seen
+//@ ensures Discovery C06.discovery.total
+func ens_discovery(p []byte, a Amf0, err error) bool {
+	if len(p) < 1 || !spec_supportedMarker(p[0]) {
+		return err != nil && a == nil
+	}
+	return err == nil && a != nil && uint8(a.amf0Marker()) == p[0]
+}
+
+// ---------- C07 ----------
+
+//@ safe marker.String C07
+//@ safe Discovery C07
+//@ safe (*amf0UTF8).UnmarshalBinary C07
+//@ safe (*Number).UnmarshalBinary C07
+//@ safe (*String).UnmarshalBinary C07
+//@ safe (*Boolean).UnmarshalBinary C07
+//@ safe (*singleMarkerObject).UnmarshalBinary C07
+//@ safe (*objectEOF).UnmarshalBinary C07
